@@ -3,7 +3,7 @@
    every driver call consumes one behaviour event Give k | Zero | Intr | Again | Fail e).
    Proved here: the source and sink sides (get/put, at-most variants, refusal of invalid counts) for
    EVERY script, octet- and chunk-style drivers.  The source-to-sink plumbing functions are modelled
-   (Model/Endpoints.v sts_*) and tied by correspondence only - see DESIGN.md C17 (partial). *)
+   (the sts functions of Model/Endpoints.v) and tied by correspondence only - see DESIGN.md C17 (partial). *)
 From Ufw Require Import Base.Bits Base.Errno Model.Endpoints Proof.EndpointsLemmas.
 Local Open Scope N_scope.
 
